@@ -270,7 +270,10 @@ class Purity:
         if self.shape is None:
             self.shape = {}
             for k, v in reg.items():
-                if isinstance(v, (dict, list, set, bytearray)) and len(v) == 0:
+                private = k[1].split(".")[-1].startswith("_")
+                if private or v is None or (isinstance(v, (dict, list, set, bytearray)) and len(v) == 0):
+                    # private module state, lazily initialised slots and empty containers are not constants of the API;
+                    # what they do to results is the history checker's business
                     self.shape[k] = "accumulator"
                 elif isinstance(v, dict):
                     self.shape[k] = set(v.keys())
